@@ -287,10 +287,13 @@ struct VecTarget
         {
             std::string const name = nm("push_sort");
             void *p = nullptr;
+            g_cmp_key = e.data(); g_cmp_key_on_left = false;
             int rc = run.api(name.c_str(), [&] {
                 if (mac) p = is_buf ? A_BUF_PUSH_SORT(unsigned char, x.b, e.data(), elem_cmp) : A_VEC_PUSH_SORT(unsigned char, x.v, e.data(), elem_cmp);
                 else p = is_buf ? a_buf_push_sort(x.b, e.data(), elem_cmp) : a_vec_push_sort(x.v, e.data(), elem_cmp);
                 return p != nullptr; }, [&] { return check(x, name.c_str()); });
+            g_cmp_key = nullptr;
+            if (g_cmp_key_on_left && rc != SeqRun::API_VIOLATION) return c.fail("key-passed-on-the-left", name.c_str(), "the comparator received the caller's key as its left argument; the documentation puts the key on the right");
             if (rc == SeqRun::API_VIOLATION) return false;
             if (rc == SeqRun::API_FAULTED) return true;
             if (full) { c.st.add("probe.buf_refused_full"); if (rc == SeqRun::API_OK) return c.fail("full-buffer-accepted-element", name.c_str(), "buffer at capacity returned a slot"); return check(x, name.c_str()); }
